@@ -6,6 +6,14 @@
 
 namespace Fastor {
 
+// The lanes of __m128i/__m256i/__m512i have element type long long; reading or writing them through a
+// plain int64_t* is a strict-aliasing violation (GCC at -O2 returns stale lanes). Go through a may_alias type.
+#if defined(__GNUC__) || defined(__clang__)
+typedef int64_t __attribute__((__may_alias__)) int64_lane_t;
+#else
+typedef int64_t int64_lane_t;
+#endif
+
 
 // AVX512 VERSION
 //-----------------------------------------------------------------------------------------------
@@ -59,8 +67,8 @@ struct SIMDVector<int64_t,simd_abi::avx512> {
         _mm512_store_si512((__m512i*)data,value);
     }
 
-    FASTOR_INLINE int64_t operator[](FASTOR_INDEX i) const {return reinterpret_cast<const int64_t*>(&value)[i];}
-    FASTOR_INLINE int64_t operator()(FASTOR_INDEX i) const {return reinterpret_cast<const int64_t*>(&value)[i];}
+    FASTOR_INLINE int64_t operator[](FASTOR_INDEX i) const {return reinterpret_cast<const int64_lane_t*>(&value)[i];}
+    FASTOR_INLINE int64_t operator()(FASTOR_INDEX i) const {return reinterpret_cast<const int64_lane_t*>(&value)[i];}
 
     FASTOR_INLINE void mask_load(const scalar_value_type *a, uint8_t mask, bool Aligned=false) {
 #ifdef FASTOR_HAS_AVX512_MASKS
@@ -140,7 +148,7 @@ struct SIMDVector<int64_t,simd_abi::avx512> {
         value = _mm512_mullo_epi64(value,_mm512_set1_epi64(num));
 #else
         for (FASTOR_INDEX i=0; i<Size; i++) {
-            ((int64_t*)&value)[i] *= num;
+            ((int64_lane_t*)&value)[i] *= num;
         }
 #endif
     }
@@ -149,7 +157,7 @@ struct SIMDVector<int64_t,simd_abi::avx512> {
         value = _mm512_mullo_epi64(value,regi);
 #else
         for (FASTOR_INDEX i=0; i<Size; i++) {
-            ((int64_t*)&value)[i] *= (((const int64_t*)&regi)[i]);
+            ((int64_lane_t*)&value)[i] *= (((const int64_lane_t*)&regi)[i]);
         }
 #endif
     }
@@ -158,7 +166,7 @@ struct SIMDVector<int64_t,simd_abi::avx512> {
         value = _mm512_mullo_epi64(value,a.value);
 #else
         for (FASTOR_INDEX i=0; i<Size; i++) {
-            ((int64_t*)&value)[i] *= (((const int64_t*)&(a.value))[i]);
+            ((int64_lane_t*)&value)[i] *= (((const int64_lane_t*)&(a.value))[i]);
         }
 #endif
     }
@@ -200,7 +208,7 @@ struct SIMDVector<int64_t,simd_abi::avx512> {
     }
 
     FASTOR_INLINE int64_t minimum() {
-        const int64_t *vals = reinterpret_cast<const int64_t*>(&value);
+        const int64_lane_t *vals = reinterpret_cast<const int64_lane_t*>(&value);
         int64_t quan = 0;
         for (FASTOR_INDEX i=0; i<Size; ++i)
             if (vals[i]<quan)
@@ -208,7 +216,7 @@ struct SIMDVector<int64_t,simd_abi::avx512> {
         return quan;
     }
     FASTOR_INLINE int64_t maximum() {
-        const int64_t *vals = reinterpret_cast<const int64_t*>(&value);
+        const int64_lane_t *vals = reinterpret_cast<const int64_lane_t*>(&value);
         int64_t quan = 0;
         for (FASTOR_INDEX i=0; i<Size; ++i)
             if (vals[i]>quan)
@@ -223,7 +231,7 @@ struct SIMDVector<int64_t,simd_abi::avx512> {
 #ifdef FASTOR_HAS_AVX512_REDUCE_ADD
         return _mm512_reduce_add_epi64(value);
 #else
-        const int64_t *vals = reinterpret_cast<const int64_t*>(&value);
+        const int64_lane_t *vals = reinterpret_cast<const int64_lane_t*>(&value);
         int64_t quan = 0;
         for (FASTOR_INDEX i=0; i<Size; ++i)
             quan += vals[i];
@@ -232,7 +240,7 @@ struct SIMDVector<int64_t,simd_abi::avx512> {
     }
 
     FASTOR_INLINE int64_t product() {
-        const int64_t *vals = reinterpret_cast<const int64_t*>(&value);
+        const int64_lane_t *vals = reinterpret_cast<const int64_lane_t*>(&value);
         int64_t quan = 1;
         for (FASTOR_INDEX i=0; i<Size; ++i)
             quan *= vals[i];
@@ -247,7 +255,7 @@ struct SIMDVector<int64_t,simd_abi::avx512> {
 };
 
 FASTOR_HINT_INLINE std::ostream& operator<<(std::ostream &os, SIMDVector<int64_t,simd_abi::avx512> a) {
-    const int64_t *value = reinterpret_cast<const int64_t*>(&a.value);
+    const int64_lane_t *value = reinterpret_cast<const int64_lane_t*>(&a.value);
     os << "[" << value[0] <<  " " << value[1] << " " << value[2] << " " << value[3]
        << " " << value[4] <<  " " << value[5] << " " << value[6] << " " << value[7] << "]\n";
     return os;
@@ -297,7 +305,7 @@ FASTOR_INLINE SIMDVector<int64_t,simd_abi::avx512> operator*(const SIMDVector<in
     out.value = _mm512_mullo_epi64(a.value,b.value);
 #else
     for (FASTOR_INDEX i=0; i<out.size(); i++) {
-       ((int64_t*)&out.value)[i] = (((int64_t*)&a.value)[i])*(((int64_t*)&b.value)[i]);
+       ((int64_lane_t*)&out.value)[i] = (((int64_lane_t*)&a.value)[i])*(((int64_lane_t*)&b.value)[i]);
     }
 #endif
     return out;
@@ -308,7 +316,7 @@ FASTOR_INLINE SIMDVector<int64_t,simd_abi::avx512> operator*(const SIMDVector<in
     out.value = _mm512_mullo_epi64(a.value,_mm512_set1_epi64(b));
 #else
     for (FASTOR_INDEX i=0; i<out.size(); i++) {
-       ((int64_t*)&out.value)[i] = (((int64_t*)&a.value)[i])*b;
+       ((int64_lane_t*)&out.value)[i] = (((int64_lane_t*)&a.value)[i])*b;
     }
 #endif
     return out;
@@ -319,7 +327,7 @@ FASTOR_INLINE SIMDVector<int64_t,simd_abi::avx512> operator*(int64_t a, const SI
     out.value = _mm512_mullo_epi64(_mm512_set1_epi64(a),b.value);
 #else
     for (FASTOR_INDEX i=0; i<out.size(); i++) {
-       ((int64_t*)&out.value)[i] = a*(((int64_t*)&b.value)[i]);
+       ((int64_lane_t*)&out.value)[i] = a*(((int64_lane_t*)&b.value)[i]);
     }
 #endif
     return out;
@@ -375,7 +383,7 @@ FASTOR_INLINE SIMDVector<int64_t,simd_abi::avx512> abs(const SIMDVector<int64_t,
     out.value = _mm512_abs_epi64(a.value);
 #else
     for (FASTOR_INDEX i=0UL; i<8UL; ++i) {
-       ((int64_t*)&out.value)[i] = std::abs(((int64_t*)&a.value)[i]);
+       ((int64_lane_t*)&out.value)[i] = std::abs(((int64_lane_t*)&a.value)[i]);
     }
 #endif
     return out;
@@ -438,8 +446,8 @@ struct SIMDVector<int64_t,simd_abi::avx> {
         _mm256_store_si256((__m256i*)data,value);
     }
 
-    FASTOR_INLINE int64_t operator[](FASTOR_INDEX i) const {return reinterpret_cast<const int64_t*>(&value)[i];}
-    FASTOR_INLINE int64_t operator()(FASTOR_INDEX i) const {return reinterpret_cast<const int64_t*>(&value)[i];}
+    FASTOR_INLINE int64_t operator[](FASTOR_INDEX i) const {return reinterpret_cast<const int64_lane_t*>(&value)[i];}
+    FASTOR_INLINE int64_t operator()(FASTOR_INDEX i) const {return reinterpret_cast<const int64_lane_t*>(&value)[i];}
 
     FASTOR_INLINE void mask_load(const scalar_value_type *a, uint8_t mask, bool Aligned=false) {
 #ifdef FASTOR_HAS_AVX512_MASKS
@@ -549,7 +557,7 @@ struct SIMDVector<int64_t,simd_abi::avx> {
     }
 
     FASTOR_INLINE int64_t minimum() {
-        const int64_t *vals = reinterpret_cast<const int64_t*>(&value);
+        const int64_lane_t *vals = reinterpret_cast<const int64_lane_t*>(&value);
         int64_t quan = 0;
         for (FASTOR_INDEX i=0; i<Size; ++i)
             if (vals[i]<quan)
@@ -557,7 +565,7 @@ struct SIMDVector<int64_t,simd_abi::avx> {
         return quan;
     }
     FASTOR_INLINE int64_t maximum() {
-        const int64_t *vals = reinterpret_cast<const int64_t*>(&value);
+        const int64_lane_t *vals = reinterpret_cast<const int64_lane_t*>(&value);
         int64_t quan = 0;
         for (FASTOR_INDEX i=0; i<Size; ++i)
             if (vals[i]>quan)
@@ -576,7 +584,7 @@ struct SIMDVector<int64_t,simd_abi::avx> {
     }
 
     FASTOR_INLINE int64_t sum() {
-        const int64_t *vals = reinterpret_cast<const int64_t*>(&value);
+        const int64_lane_t *vals = reinterpret_cast<const int64_lane_t*>(&value);
         int64_t quan = 0;
         for (FASTOR_INDEX i=0; i<Size; ++i)
             quan += vals[i];
@@ -584,7 +592,7 @@ struct SIMDVector<int64_t,simd_abi::avx> {
     }
 
     FASTOR_INLINE int64_t product() {
-        const int64_t *vals = reinterpret_cast<const int64_t*>(&value);
+        const int64_lane_t *vals = reinterpret_cast<const int64_lane_t*>(&value);
         int64_t quan = 1;
         for (FASTOR_INDEX i=0; i<Size; ++i)
             quan *= vals[i];
@@ -592,8 +600,8 @@ struct SIMDVector<int64_t,simd_abi::avx> {
     }
 
     FASTOR_INLINE int64_t dot(const SIMDVector<int64_t,simd_abi::avx> &other) {
-        const int64_t *vals0 = reinterpret_cast<const int64_t*>(&value);
-        const int64_t *vals1 = reinterpret_cast<const int64_t*>(&other.value);
+        const int64_lane_t *vals0 = reinterpret_cast<const int64_lane_t*>(&value);
+        const int64_lane_t *vals1 = reinterpret_cast<const int64_lane_t*>(&other.value);
         int64_t quan = 0;
         for (FASTOR_INDEX i=0; i<Size; ++i)
             quan += vals0[i]*vals1[i];
@@ -604,7 +612,7 @@ struct SIMDVector<int64_t,simd_abi::avx> {
 };
 
 FASTOR_HINT_INLINE std::ostream& operator<<(std::ostream &os, SIMDVector<int64_t,simd_abi::avx> a) {
-    const int64_t *value = reinterpret_cast<const int64_t*>(&a.value);
+    const int64_lane_t *value = reinterpret_cast<const int64_lane_t*>(&a.value);
     os << "[" << value[0] <<  " " << value[1] << " " << value[2] << " " << value[3] << "]\n";
     return os;
 }
@@ -796,8 +804,8 @@ struct SIMDVector<int64_t,simd_abi::sse> {
 #endif
     }
 
-    FASTOR_INLINE int64_t operator[](FASTOR_INDEX i) const {return reinterpret_cast<const int64_t*>(&value)[i];}
-    FASTOR_INLINE int64_t operator()(FASTOR_INDEX i) const {return reinterpret_cast<const int64_t*>(&value)[i];}
+    FASTOR_INLINE int64_t operator[](FASTOR_INDEX i) const {return reinterpret_cast<const int64_lane_t*>(&value)[i];}
+    FASTOR_INLINE int64_t operator()(FASTOR_INDEX i) const {return reinterpret_cast<const int64_lane_t*>(&value)[i];}
 
     FASTOR_INLINE void set(int64_t num) {
         value = _mm_set_epi64x(num,num);
@@ -868,7 +876,7 @@ struct SIMDVector<int64_t,simd_abi::sse> {
     }
 
     FASTOR_INLINE int64_t minimum() {
-        const int64_t *vals = reinterpret_cast<const int64_t*>(&value);
+        const int64_lane_t *vals = reinterpret_cast<const int64_lane_t*>(&value);
         int64_t quan = 0;
         for (FASTOR_INDEX i=0; i<Size; ++i)
             if (vals[i]<quan)
@@ -876,7 +884,7 @@ struct SIMDVector<int64_t,simd_abi::sse> {
         return static_cast<int64_t>(quan);
     }
     FASTOR_INLINE int64_t maximum() {
-        const int64_t *vals = reinterpret_cast<const int64_t*>(&value);
+        const int64_lane_t *vals = reinterpret_cast<const int64_lane_t*>(&value);
         int64_t quan = 0;
         for (FASTOR_INDEX i=0; i<Size; ++i)
             if (vals[i]>quan)
@@ -888,14 +896,14 @@ struct SIMDVector<int64_t,simd_abi::sse> {
     }
 
     FASTOR_INLINE int64_t sum() {
-        const int64_t *vals = reinterpret_cast<const int64_t*>(&value);
+        const int64_lane_t *vals = reinterpret_cast<const int64_lane_t*>(&value);
         int64_t quan = 0;
         for (FASTOR_INDEX i=0; i<2; ++i)
             quan += vals[i];
         return static_cast<int64_t>(quan);
     }
     FASTOR_INLINE int64_t product() {
-        const int64_t *vals = reinterpret_cast<const int64_t*>(&value);
+        const int64_lane_t *vals = reinterpret_cast<const int64_lane_t*>(&value);
         int64_t quan = 1;
         for (FASTOR_INDEX i=0; i<Size; ++i)
             quan *= vals[i];
@@ -903,8 +911,8 @@ struct SIMDVector<int64_t,simd_abi::sse> {
     }
 
     FASTOR_INLINE int64_t dot(const SIMDVector<int64_t,simd_abi::sse> &other) {
-        const int64_t *vals0 = reinterpret_cast<const int64_t*>(&value);
-        const int64_t *vals1 = reinterpret_cast<const int64_t*>(&other.value);
+        const int64_lane_t *vals0 = reinterpret_cast<const int64_lane_t*>(&value);
+        const int64_lane_t *vals1 = reinterpret_cast<const int64_lane_t*>(&other.value);
         int64_t quan = 0;
         for (FASTOR_INDEX i=0; i<2; ++i)
             quan += vals0[i]*vals1[i];
@@ -915,7 +923,7 @@ struct SIMDVector<int64_t,simd_abi::sse> {
 };
 
 FASTOR_HINT_INLINE std::ostream& operator<<(std::ostream &os, SIMDVector<int64_t,simd_abi::sse> a) {
-    const int64_t *value = reinterpret_cast<const int64_t*>(&a.value);
+    const int64_lane_t *value = reinterpret_cast<const int64_lane_t*>(&a.value);
     os << "[" << value[0] <<  " " << value[1] << "]\n";
     return os;
 }
